@@ -45,6 +45,7 @@ func Verif_C06_runlength_roundtrip() {
 // Verif_C06_runlength_long_runs: concrete lengths around the 128-byte run and
 // literal limits, symbolic content (two symbolic byte values).
 func Verif_C06_runlength_long_runs() {
+	verifrt.Unwind(2000)
 	lens := []int{127, 128, 129, 130, 256, 257}
 	n := lens[verifrt.Choice("len", len(lens))]
 	a, b := verifrt.Byte("a"), verifrt.Byte("b")
@@ -71,7 +72,6 @@ func Verif_C06_runlength_long_runs() {
 	if shape == 1 {
 		verifrt.Assume(a != b)
 	}
-	verifrt.Unwind(2000)
 	enc := verifEncode(data, n/2)
 	r := Decode(&verifrt.ChunkReader{Data: enc, EOF: io.EOF})
 	out, err, exhausted := verifrt.ReadAll(r, 100, 16)
@@ -140,9 +140,9 @@ func Verif_C07_runlength_vs_reference() {
 }
 
 func Verif_C08_runlength_total() {
-	max := 4
+	max := 3
 	if verifrt.Tier() > 0 {
-		max = 6
+		max = 5
 	}
 	n := verifrt.Len("n", 0, max)
 	body := verifrt.Bytes("body", n)
